@@ -10,6 +10,13 @@ def _imports():
 
 class CompErr(Exception):
     def __init__(self, tag): self.tag = tag
+class CompKeyErr(KeyError):          # components fail with whatever their code raises — a dictionary miss is the commonest
+    def __init__(self, tag): super().__init__(tag); self.tag = tag
+class CompLookupErr(LookupError):
+    def __init__(self, tag): super().__init__(tag); self.tag = tag
+class CompTypeErr(TypeError):
+    def __init__(self, tag): super().__init__(tag); self.tag = tag
+ERRS = [CompErr, CompKeyErr, CompLookupErr, CompTypeErr]
 
 LOG = []
 
@@ -28,12 +35,12 @@ def make_fn(idx, op, k, params):
     elif op == "const": body += [f"    return {k}"]
     elif op == "constNone": body += ["    return None"]
     elif op == "ident": body += ["    return args[0]"]
-    elif op == "raise": body += [f"    raise CompErr({k})"]
+    elif op == "raise": body += [f"    raise ERRS[{k} % 4]({k})"]
     elif op == "sumOpt": body += [f"    return {k} + sum(a for a in args if isinstance(a, int))"]
     elif op == "firstOf": body += ["    return args[0] if args[0] is not None else lz[0].get()"]
     elif op == "lazyIfNeg": body += ["    return lz[0].get() if (isinstance(args[0], int) and args[0] < 0) else args[0]"]
     src = f"def comp_{idx}({', '.join(anns)}) -> object:\n" + "\n".join(body) + "\n"
-    ns = {"Lazy": Lazy, "LOG": LOG, "CompErr": CompErr}
+    ns = {"Lazy": Lazy, "LOG": LOG, "ERRS": ERRS}
     exec(src, ns)
     return ns[f"comp_{idx}"]
 
@@ -71,7 +78,30 @@ def gen_case(rng):
             inputs.append(None)
     reqs = [rng.randrange(n) for _ in range(rng.randint(1, 3))]
     order = list(range(n)); rng.shuffle(order)          # declaration order
-    return {"nodes": nodes, "inputs": inputs, "requests": reqs, "decl": order}
+    case = {"nodes": nodes, "inputs": inputs, "requests": reqs, "decl": order}
+    # default connections (targets are inputs / literals, so no cycle can be closed); optionally the pipeline is built, the defaults
+    # re-pointed and the pipeline built again — the second build must follow the builder's graph as it stands then
+    leaves = [i for i, nd in enumerate(nodes) if nd["kind"] in ("input", "literal")]
+    if leaves and rng.random() < 0.3:
+        case["defaults"] = {f"p{j}": rng.choice(leaves) for j in range(3) if rng.random() < 0.6}
+        if case["defaults"] and rng.random() < 0.6:
+            case["redefault"] = {pn: rng.choice(leaves) for pn in case["defaults"] if rng.random() < 0.7}
+            case["between"] = rng.choice(["build", "config_hash", "clone"])
+    return case
+
+def final_defaults(case):
+    d = dict(case.get("defaults") or {}); d.update(case.get("redefault") or {}); return d
+
+def model_nodes(case):
+    """the functional reading: a parameter with no explicit wiring takes the builder's default connection of its name, if any"""
+    d = final_defaults(case)
+    if not d: return case["nodes"]
+    out = []
+    for nd in case["nodes"]:
+        if nd["kind"] == "comp":
+            nd = dict(nd, params=[dict(p, src=(d.get(f"p{j}") if p["src"] is None else p["src"])) for j, p in enumerate(nd["params"])])
+        out.append(nd)
+    return out
 
 def build_real(case):
     pb = PipelineBuilder()
@@ -90,6 +120,13 @@ def build_real(case):
         if nd["kind"] == "comp":
             wiring = {f"p{j}": handles[p["src"]] for j, p in enumerate(nd["params"]) if p["src"] is not None}
             if wiring: pb.connect(handles[i], **wiring)
+    for pn, tgt in (case.get("defaults") or {}).items(): pb.default_connection(pn, handles[tgt])
+    if case.get("redefault"):
+        how = case.get("between", "build")
+        if how == "build": pb.build()
+        elif how == "config_hash": pb.config_hash()
+        else: pb = pb.clone()
+        for pn, tgt in case["redefault"].items(): pb.default_connection(pn, pb.node(f"n{tgt}"))
     return pb.build()
 
 def run_real(pipe, case):
@@ -101,12 +138,13 @@ def run_real(pipe, case):
     try:
         out = pipe.run(tuple(f"n{i}" for i in case["requests"]), **kw)
         res = {"ok": [None if x is None else ({"i": x} if isinstance(x, int) else {"s": x}) for x in out]}
-    except PipelineError: res = {"err": "pipelineError"}
-    except TypeError: res = {"err": "typeError"}
-    except KeyError: res = {"err": "keyError"}
-    except CompErr as e: res = {"err": f"comp{e.tag}"}
-    except RuntimeError: res = {"err": "runtimeError"}
-    except Exception as e: res = {"err": "other:" + type(e).__name__}
+    except Exception as e:
+        if isinstance(e, tuple(ERRS)): res = {"err": f"comp{e.tag}"}          # a component's own exception, whatever its class
+        elif isinstance(e, PipelineError): res = {"err": "pipelineError"}
+        elif isinstance(e, TypeError): res = {"err": "typeError"}
+        elif isinstance(e, KeyError): res = {"err": "keyError"}
+        elif isinstance(e, RuntimeError): res = {"err": "runtimeError"}
+        else: res = {"err": "other:" + type(e).__name__}
     return {"result": res, "log": list(LOG)}
 
 
@@ -122,7 +160,7 @@ def run(case: dict, lean: Lean) -> Outcome:
     except Exception as e:                      # construction rejected: same for model (cycles cannot be generated), skip class
         return Outcome(True, True, (), {"build_error": type(e).__name__})
     real = run_real(pipe, case)
-    args = {k: case[k] for k in ("nodes", "inputs", "requests")}
+    args = {"nodes": model_nodes(case), "inputs": case["inputs"], "requests": case["requests"]}
     as_is = lean.call("c02.run", {"variant": "asIs", **args})
     rep = lean.call("c02.run", {"variant": "repaired", **args})
     corr = real in (as_is, rep)
@@ -138,6 +176,9 @@ def run(case: dict, lean: Lean) -> Outcome:
     if case["decl"] != sorted(case["decl"]): classes.append("later-declared source")
     if "err" in real["result"]: classes.append("error: " + real["result"]["err"])
     if as_is != rep: classes.append("as-is ≠ repaired")
+    if case.get("defaults"): classes.append("default connections")
+    if case.get("redefault"): classes.append("defaults re-pointed after " + case.get("between", "build"))
+    if any(nd["kind"] == "comp" and nd["op"] == "raise" and nd["k"] % 4 == 1 for nd in nodes): classes.append("component raising KeyError")
     key = None
     if not spec and real == as_is:
         key = "runner memo: answer depends on earlier requests (" + (real["result"].get("err") or "value") + " vs " + (rep["result"].get("err") or "value") + ")"
